@@ -420,3 +420,9 @@ META = dict(
     required_outcomes=['card->int->card', 'int->card->int', 'int->card refused', 'card->str->card', 'call', 'seat',
                        'vulnerability', 'contract', 'passed-out contract'],
 )
+
+
+def validate(tier):
+    """translator validation: the interpreter in concrete mode against CPython on the functions this check encodes"""
+    from engine import validate as v
+    return v.run(['converters'], tier)
